@@ -57,6 +57,13 @@ def make_cases(ctx, n):
             # the archive already holds an earlier version of (a variant of) this tree: metadata-only
             # changes (chmod, chown, retarget) and content changes must all show in the new version
             earlier, _ = gen.mutate_tree(ctx.rng, tree)
+            # a file rewritten with the same length a fraction of a second after a WHOLE-second mtime (and one the other way
+            # round): the new version must hold the new bytes
+            sec = ctx.rng.randrange(1, 2_000_000_000) * 10**9
+            earlier["c"]["tick"] = {"k": "f", "data": b"balance: 100".hex(), "mode": 0o644, "mtime": sec}
+            tree["c"]["tick"] = {"k": "f", "data": b"balance: 999".hex(), "mode": 0o644, "mtime": sec + ctx.rng.choice([1, 250_000_000, 999_999_999])}
+            earlier["c"]["tock"] = {"k": "f", "data": b"0123456789".hex(), "mode": 0o644, "mtime": sec + 500_000_000}
+            tree["c"]["tock"] = {"k": "f", "data": b"9876543210".hex(), "mode": 0o644, "mtime": sec}
             steps += [{"op": "mktree", "path": "src", "tree": earlier}, {"op": "walk"}, {"op": "backup", "opts": gen.rand_opts(ctx.rng)}]
             band = 1
         steps += [{"op": "mktree", "path": "src", "tree": tree}, {"op": "snap", "path": "src"},
